@@ -172,7 +172,7 @@ def gen_src(rng, sid='PS', ncallouts=None, kind=None, shapes=None):
         flags |= 1
     s = hdr(rng, sid)
     s.update(kind='SRC', srcver=rng.randrange(256), flags=flags, res1=rng.randrange(256),
-             wc=rng.choice([9, 9, 9, 1, 2, 5, 8]), res2=rbytes(rng, 2), words=words,
+             wc=rng.choice([9, 9, 9, 1, 2, 5, 8, 0]), res2=rbytes(rng, 2), words=words,
              ascii=text(ref, 32, 0x20), callouts=callouts)
     return s
 
